@@ -80,6 +80,21 @@ def one(ctx, dtw, dtw_cc, np, s1, s2, kw, psi_neg, keep, nd):
             ctx.violation("neg-marking", fn=fn, reason=msg, s1=dtwmon.tolist(s1), s2=dtwmon.tolist(s2),
                           settings=dict(dtwmon.settings_key(kwn)), d=float(dC), lastrow=MCl[r],
                           lastcol=[row[c] for row in MCl])
+    # the Cython entry point itself, writing into a caller-owned matrix that still holds old content (a matrix reused
+    # across calls): every cell must be (re)written, also those outside the band
+    if rng.random() < 0.35:
+        fn = "dtw_cc.warping_paths%s(reused output matrix)" % ("_ndim" if nd else "")
+        try:
+            ckw_ = dtw.DTWSettings.for_dtw(s1, s2, **kwn).c_kwargs()
+            out_ = np.full((r + 1, c + 1), rng.choice([0.0, 123.5, -4.0]))
+            a1_, a2_ = np.ascontiguousarray(s1, dtype=float), np.ascontiguousarray(s2, dtype=float)
+            fcc_ = dtw_cc.warping_paths_ndim if nd else dtw_cc.warping_paths
+            dR = fcc_(out_, a1_, a2_, psi_neg=psi_neg, keep_int_repr=keep, **ckw_)
+            ctx.count("c04_reused_output_matrix_calls")
+            wpsmon.compare_matrices(ctx, fn, s1, s2, kwn, psi_neg, keep, float(dR), out_.tolist(), float(dC), MCl)
+        except Exception as e:
+            ctx.violation("exception", fn=fn, s1=dtwmon.tolist(s1), s2=dtwmon.tolist(s2),
+                          settings=dict(dtwmon.settings_key(kwn)), error=repr(e)[:300])
     # C compact + expansion / slices (psi_neg off: the expander is shared with the affinity matrices)
     fn = "dtw.warping_paths_fast(compact)+wps_expand_slice"
     try:
